@@ -101,9 +101,10 @@ def pivotRecMap (rowKeys : List String) (nameKey valueKey : String) (valueCols :
     produced := rowKeys ++ valueCols,
     repr := specRepr rowKeys nameKey valueKey valueCols ++ " -> None" }
 
-/-- text of `coalesce_value` as the parser reads it back (`str(v)`): numbers and booleans are themselves -/
+/-- text of `coalesce_value` as the parser reads it back: numbers and booleans through `str(v)` are themselves, a
+`str` is spliced as `repr(v)` (a quoted literal) since fix "def_multi_column_map quotes a string coalesce_value" -/
 def coalesceLitOk : Lit → Bool
-  | .int _ | .flt _ | .bool _ => true
+  | .int _ | .flt _ | .bool _ | .str _ => true
   | _ => false
 
 def defMultiColumnMap (d mappingTable : Ops) (rowKeys : List String) (colsToMap : List String)
